@@ -145,6 +145,12 @@ def run_obligation(ob: dict) -> dict:
         if m:
             verdicts.append((m.group("kind"), m.group("msg")))
     if not verdicts:
+        if err == "WALL TIMEOUT" and int(st.get("paths", 0) or 0) >= 1 and int(st.get("reached", 0) or 0) >= 1:
+            # the process was stopped at the wall-clock limit (2 x budget + 120 s) before CrossHair's own budget check
+            # fired - a machine under load; no counterexample on the paths explored so far: explored, not exhausted
+            res["verdict"] = "not_exhausted"
+            res["detail"] = "Not confirmed. (wall-clock limit reached, %s paths explored, no counterexample)" % st.get("paths")
+            return res
         res["detail"] = "no verdict line; rc=%s stdout=%r stderr=%r" % (rc, out[-1500:], err[-2500:])
         return res
     for kind, msg in verdicts:
